@@ -15,6 +15,8 @@ structure KindOps where
   wfToks : List String → Option (Bool × String)   -- (well-formed?, canonical tokens)
   /-- for input bytes that are exactly the encoding of a well-formed message: its tokens -/
   canon : Bytes → Option String
+  /-- the model's allocation trace for this input (bytes) -/
+  allocOf : Bytes → Nat
 
 def mkOps {α : Type} (c : Codec α) (minLen : Nat) : KindOps :=
   let decode := decodeTop minLen c
@@ -42,7 +44,8 @@ def mkOps {α : Type} (c : Codec α) (minLen : Nat) : KindOps :=
     canon := fun bs =>
       match decode bs with
       | some a => if c.wf a && c.enc a == bs then some (join (c.toks a)) else none
-      | none => none }
+      | none => none
+    allocOf := decodeTopAlloc minLen c }
 
 /-! token-level helpers for the two hand-written kinds -/
 
@@ -62,6 +65,7 @@ def niTokC := seq niHeadC (seq (listN 1 peerC) (seq key32 (seq bool (seq (listN 
 def nodeInfoC : Codec NodeInfo where
   enc := encodeNodeInfo
   dec bs := (decodeNodeInfo bs).map (·, [])
+  alloc := nodeInfoAlloc
   wf := nodeInfoWF
   toks n := niTokC.toks ((n.name, n.host, n.os, n.arch, n.ver, n.start, n.ips), n.peers, n.pub, n.udp,
     n.fls, n.shells, n.ft, n.sh, n.icmp)
@@ -75,6 +79,7 @@ def qsTokC := seq (listN 2 routeAdvertiseC) (seq (listN 2 routeWithdrawC)
 def queuedC : Codec QueuedState where
   enc := encodeQueuedState
   dec bs := (decodeQueuedState bs).map (·, [])
+  alloc := queuedAlloc
   wf := queuedStateWF
   toks q := qsTokC.toks (q.routes, q.withdraws, q.nodeInfos, q.sleep, q.wake)
   ofToks ts := (qsTokC.ofToks ts).map fun ((routes, withdraws, nodeInfos, sleep, wake), r) =>
@@ -111,6 +116,37 @@ def kind (name : String) : Option KindOps :=
   | "queued" => some (mkOps queuedC 0)
   | _ => none
 
+/-! `encnw`: Go `Encode` on in-memory values that need not be within the wire limits.
+    `bufferWriter` is a fixed-size buffer: RouteAdvertise.Encode sizes it from each route's FAMILY
+    (except domain/forward routes) but writes the whole prefix, so it panics iff more bytes are
+    written than were reserved; RouteWithdraw.Encode writes `Prefix[:size(family)]`, so it panics
+    iff a prefix is shorter than its family's size and silently truncates a longer one.  Outside
+    the quantifier of C05 (`wf` excludes these values); no caller builds such a value (prefixes come
+    from net.IPNet.IP via ParseCIDR/protocolRouteToIPNet or from the decoder). -/
+def advReserved (r : ((Nat × Nat) × Bytes) × Nat) : Nat :=
+  let fam := r.1.1.1
+  4 + (if fam = 3 ∨ fam = 4 then r.1.2.length else if fam = 1 then 4 else if fam = 3 then 1 else 16)
+
+def encNonWF (k : String) (ts : List String) : String :=
+  if k = "routeadv" then
+    match routeAdvertiseC.ofToks ts with
+    | some (a, []) =>
+      let routes := a.2.2.2.1
+      let written := (routes.map fun r => 4 + r.1.2.length).sum
+      let reserved := (routes.map advReserved).sum
+      if written > reserved then "encode-panic" else "ok " ++ hexTok (routeAdvertiseC.enc a)
+    | _ => "bad-op"
+  else if k = "routewd" then
+    match routeWithdrawC.ofToks ts with
+    | some (w, []) =>
+      let routes := w.2.2.1
+      if routes.any (fun r => decide (r.1.2.length < wdPrefixLen r.1.1.1)) then "encode-panic"
+      else
+        let clipped := routes.map fun r => ((r.1.1, r.1.2.take (wdPrefixLen r.1.1.1)), r.2)
+        "ok " ++ hexTok (routeWithdrawC.enc (w.1, w.2.1, clipped, w.2.2.2))
+    | _ => "bad-op"
+  else "bad-op"
+
 def showFrameErr : FrameErr → String
   | .tooLarge => "err toolarge"
   | .invalid => "err invalid"
@@ -123,7 +159,12 @@ def step (line : String) : String :=
   | ["dec", k, h] => match kind k, bytesOfHex h with
     | some ops, some bs => ops.dec bs
     | _, _ => "bad-op"
-  | ["alloc", _, _] => "alloc ok"   -- model side: C05_queued_prealloc_le (Props/C05.lean)
+  | "encnw" :: k :: ts => encNonWF k ts
+  | ["alloc", k, h] => match kind k, bytesOfHex h with
+    -- the model's allocation trace against the bound the real decoder is measured against
+    -- (K_alloc_le in Props/C05.lean: always within it)
+    | some ops, some bs => if ops.allocOf bs ≤ 1024 * bs.length + 65536 then "alloc ok" else "alloc big"
+    | _, _ => "bad-op"
   | ["frame", t, fl, sid, p] => match t.toNat?, fl.toNat?, sid.toNat?, bytesOfHex p with
     | some t, some fl, some sid, some p => match encodeFrame (t, fl, sid, p) with
       | .ok b => "ok " ++ hexTok b
